@@ -660,8 +660,14 @@ func (d *urlValuesDecoder) DecodeObject(param string, sm *openapi3.Serialization
 				return nil, nil
 			}
 			if sm.Explode {
+				// An exploded object is spread over query parameters named after its properties. When the
+				// schema forbids additional properties, the other query parameters of the request are not its.
+				closed := schema.Value.AdditionalProperties.Has != nil && !*schema.Value.AdditionalProperties.Has
 				props := make(map[string]string)
 				for key, values := range params {
+					if _, declared := schema.Value.Properties[key]; closed && !declared {
+						continue
+					}
 					props[key] = values[0]
 				}
 				return props, nil
@@ -1067,6 +1073,14 @@ func buildResObj(params map[string]any, parentKeys []string, key string, schema 
 				}
 				if r != nil {
 					resultMap[k] = r
+				}
+			}
+		} else if has := schema.Value.AdditionalProperties.Has; has != nil && !*has {
+			// additionalProperties: false. Keep the undeclared properties as they were sent,
+			// so that validating the object reports them instead of silently dropping them.
+			for k, v := range objectParams {
+				if _, declared := schema.Value.Properties[k]; !declared {
+					resultMap[k] = v
 				}
 			}
 		}
